@@ -369,8 +369,13 @@ def Step.show : Step → String
   | .close c => s!"close {c}"
   | .request c => s!"request {c}"
 
-/-- every step a scheduler may pick in `s` (connection ids up to `bound`, plus one fresh arrival);
-    used by the driver to enumerate / sample schedules -/
+/-- driver helper: apply one step and render `en=<0|1> <state>` -/
+def stepShow (s : State) (st : Step) : State × String :=
+  let s' := step s st
+  (s', "en=" ++ showBool (enabled s st) ++ " " ++ showState s')
+
+/-- every step a scheduler may pick in `s` (all known connections and acceptors, plus the arrival
+    of `freshId`); for the driver to enumerate / sample schedules -/
 def enabledSteps (s : State) (freshId : ConnId) : List Step :=
   let ids := s.conns.map Prod.fst
   let accs := List.range s.acceptors.length
